@@ -13,6 +13,10 @@ class C04(Prop):
         "Stgutg.Props.C04.integer_roundtrip", "Stgutg.Props.C04.enumerated_roundtrip",
         "Stgutg.Props.C04.octet_string_roundtrip", "Stgutg.Props.C04.string_roundtrip",
         "Stgutg.Props.C04.bit_string_roundtrip",
+        "Stgutg.Props.C04.composite_roundtrip", "Stgutg.Props.C04.never_empty", "Stgutg.Props.C04.roundtrip_marshal",
+        "Stgutg.Props.C04.ngap_schema_rtOK", "Stgutg.Props.C04.C04_roundtrip_pdu", "Stgutg.Props.C04.C04_reencode_pdu",
+        "Stgutg.Props.C04.C04_roundtrip_container", "Stgutg.Props.C04.ngSetupRequest_conf",
+        "Stgutg.Props.C04.ngSetupRequest_encodes",
     ]
     domains = [Domain("aper-rt", 600, 30000)]
     rule = ("aper-rt: constraint-satisfying random values of NGAPPDU (60%), transfer containers (20%) and arbitrary ngapType types (20%), "
